@@ -145,7 +145,7 @@ def selftest(ctx, good_file, stats):
 
 def run(ctx):
     rnd = random.Random(ctx.seed)
-    zr = P.harness(ctx)
+    zr = P.harness(ctx, ["placesim.go"])
     # ---- (A) the contract is satisfiable and its premises are not vacuous
     cfgs = ["MC_ZPlace.cfg", "MC_ZPlace_vac1.cfg", "MC_ZPlace_vac2.cfg", "MC_ZPlace_vac3.cfg", "MC_ZPlace_vac4.cfg"]
     mres = V.parallel(lambda c: V.tlc(ctx, "MC_ZPlace", c, workers=2, timeout=600), cfgs, n=5)
@@ -182,8 +182,9 @@ def run(ctx):
     for s in range(rshards):
         jobs.append(("rand-s%d" % s, ["-mode", "rand", "-n", str(nrand // rshards), "-seed", str(ctx.seed * 1000 + s),
                                       "-parts", "2" if quick else "4"]))
-    # the trigger of known finding place-v2-empty-candidates, on purpose (isolate)
-    jobs.append(("isolate", ["-mode", "isolate", "-maxn", "4" if quick else "5", "-maxdc", "3", "-maxr", "3",
+    # previous layouts with replica lists longer than R (replication factor lowered, balance move in
+    # flight) + a node loss: the trigger of finding place-v2-empty-candidates (fixed by ea2d1b6)
+    jobs.append(("long-old-lists", ["-mode", "isolate", "-maxn", "4" if quick else "5", "-maxdc", "3", "-maxr", "3",
                              "-ns", names[0], "-seed", seed, "-parts", "1" if quick else "4"]))
     driven = V.parallel(lambda j: (j,) + P.drive(ctx, zr, "placesim", j[0], j[1]), jobs, n=8 if quick else 12)
     good = None
@@ -234,10 +235,10 @@ def run(ctx):
         "data-centre premise read in its weakest sound sense: no previous layout is passed, every data centre "
         "with a live node has the same number of live nodes, at least R such data centres; every node carries a "
         "dc_info tag",
-        "general corpus: along a history the replication factor and partition count stay fixed and the previous "
-        "layout is the last layout the function itself produced (replica lists of exactly R entries); previous "
-        "layouts with longer replica lists are exercised only by the isolate stage (known finding "
-        "place-v2-empty-candidates)",
+        "along an enumerated history the replication factor and partition count stay fixed and the previous "
+        "layout is the last layout the function itself produced; previous layouts with replica lists longer "
+        "than R (factor lowered by one, one partition extended to R+1) are exercised by stage long-old-lists "
+        "with single node losses only",
         "complete enumeration only up to %d nodes / 3 data centres / 8 partitions / R<=3 / history depth %d; "
         "above that seeded sampling up to 40 nodes / 4 DCs / 64 partitions / R<=5" % (maxn, hist),
         "the contract part (A) is only satisfiability and non-vacuity; the guarantees about the real algorithms "
